@@ -60,10 +60,10 @@ func (c12Sim) Gen(prop, tier string, r *rand.Rand) interface{} {
 		c.Adv = []int64{0}
 		return c
 	}
-	rels := []string{"top.wsp", "grp/it0/a.wsp", "grp/it0/b.wsp", "grp/it1/a.wsp", "grp/it1/c.wsp", "x y/sp ace.wsp"}
+	rels := []string{"top.wsp", "grp/it0/a.wsp", "grp/it0/b.wsp", "grp/it1/a.wsp", "grp/it1/c.wsp", "x y/sp ace.wsp", "p+q/cpu+1&2=3.wsp"}
 	for _, rel := range rels {
 		if chance(r, 0.85) {
-			c.Files = append(c.Files, WFile{Base: "src", Rel: rel, Layout: l, Fills: genFills(r, l, 1, 0.7)})
+			c.Files = append(c.Files, WFile{Base: "src", Rel: rel, Layout: l, Fills: genFills(r, l, 1, 0.7), Link: chance(r, 0.08)})
 		}
 	}
 	if len(c.Files) == 0 {
@@ -84,7 +84,7 @@ func (c12Sim) Gen(prop, tier string, r *rand.Rand) interface{} {
 	}
 	n := len(l.Archs)
 	ncmd := int(between(r, 2, 6))
-	fileChoices := append(append([]string{}, rels...), "missing.wsp", "grp/it0/none.wsp", "nodir/a.wsp")
+	fileChoices := append(append([]string{}, rels...), "missing.wsp", "grp/it0/none.wsp", "nodir/a.wsp", "p+q/cpu+1&2=3.wsp")
 	for i := 0; i < ncmd; i++ {
 		cm := Cmd{Archive: genArchiveSel(r, n), NoHeader: chance(r, 0.3), ViaParse: chance(r, 0.2)}
 		if chance(r, 0.05) {
@@ -100,11 +100,11 @@ func (c12Sim) Gen(prop, tier string, r *rand.Rand) interface{} {
 			cm.Sort = chance(r, 0.5)
 		case 3, 4:
 			cm.Kind = "sum"
-			cm.Item = pick(r, "grp/it*", "grp/it0", "grp/*", "nomatch*", "grp/it1", "*", "x*")
-			cm.Src = pick(r, "*.wsp", "a.wsp", "zz*.wsp", "[ab].wsp")
+			cm.Item = pick(r, "grp/it*", "grp/it0", "grp/*", "nomatch*", "grp/it1", "*", "x*", "p+q", "p+*")
+			cm.Src = pick(r, "*.wsp", "a.wsp", "zz*.wsp", "[ab].wsp", "cpu+*.wsp", "cpu+1&2=3.wsp")
 		case 5, 6:
 			cm.Kind = "diff"
-			cm.Src = pick(r, "top.wsp", "grp/it0/a.wsp", "grp/it*/a.wsp", "grp/it0/*.wsp", "missing.wsp", "none*/x.wsp", "*.wsp", "*/*.wsp", "x*/*.wsp")
+			cm.Src = pick(r, "top.wsp", "grp/it0/a.wsp", "grp/it*/a.wsp", "grp/it0/*.wsp", "missing.wsp", "none*/x.wsp", "*.wsp", "*/*.wsp", "x*/*.wsp", "p+q/cpu+1&2=3.wsp", "p+*/*.wsp")
 			if chance(r, 0.3) {
 				// both bases are the served tree: two requests overlap inside one command
 				cm.DstIsSrc = true
@@ -294,6 +294,10 @@ func (c12Sim) Run(e *Env, ci interface{}) {
 		if len(lres.panics) > 0 {
 			e.Skip("foreign-panic-in-local-command")
 			continue
+		}
+		if rres.aborted && !lres.aborted {
+			e.Violate("C12.equal-outcome", "%s: the command against the server URL never returned (a handler waits for a lock that an earlier request of this server never released, or the wire stalled), the same command on the directory ended with %s;%s", desc, outcomeClass(lres.err), " abort reason: "+r.s.AbortWhy+r.s.DeadlockInfo)
+			return
 		}
 		if lres.aborted || rres.aborted {
 			return
